@@ -36,6 +36,10 @@ elab "bounded " n:num " => " t:tacticSeq : tactic => do
 
 namespace Rngs
 
+/-- `next_u64_via_u32` written out with projections (the source may inline it as two `next_u32` calls) -/
+theorem nextU64ViaU32_eq {σ : Type} (f : σ → U32 × σ) (s : σ) :
+    nextU64ViaU32 f s = ((f (f s).2).1.setWidth 64 <<< 32 ||| (f s).1.setWidth 64, (f (f s).2).2) := rfl
+
 /-- step functions (`next_u32`, `next_u64`): definitional unfolding first -/
 macro "ext_tie_step" f:ident : tactic =>
   `(tactic| first
